@@ -34,6 +34,7 @@ const (
 	policyErrInvalidPrincipal     = policyErr("Invalid principal in policy")
 	policyErrInvalidAction        = policyErr("Policy has invalid action")
 	policyErrInvalidPolicy        = policyErr("This policy contains invalid Json")
+	policyErrUnsupportedElement   = policyErr("Policy has a statement element that is not supported (Condition, NotPrincipal, NotAction, NotResource)")
 	policyErrInvalidFirstChar     = policyErr("Policies must be valid JSON and the first byte must be '{'")
 	policyErrEmptyStatement       = policyErr("Could not parse the policy: Statement is empty!")
 	policyErrMissingStatmentField = policyErr("Missing required field Statement")
@@ -94,11 +95,22 @@ type BucketPolicyItem struct {
 	Principals Principals             `json:"Principal"`
 	Actions    Actions                `json:"Action"`
 	Resources  Resources              `json:"Resource"`
+	// elements that narrow or invert a statement are not evaluated: a
+	// statement that carries one must not be enforced without it
+	Condition    json.RawMessage `json:"Condition,omitempty"`
+	NotPrincipal json.RawMessage `json:"NotPrincipal,omitempty"`
+	NotAction    json.RawMessage `json:"NotAction,omitempty"`
+	NotResource  json.RawMessage `json:"NotResource,omitempty"`
 }
 
 func (bpi *BucketPolicyItem) Validate(bucket string, iam IAMService) error {
 	if err := bpi.Effect.Validate(); err != nil {
 		return err
+	}
+	for _, el := range []json.RawMessage{bpi.Condition, bpi.NotPrincipal, bpi.NotAction, bpi.NotResource} {
+		if len(el) != 0 && string(el) != "null" {
+			return policyErrUnsupportedElement
+		}
 	}
 	if err := bpi.Principals.Validate(iam); err != nil {
 		return err
